@@ -32,6 +32,8 @@ def mutants(prog):
         ("normalize size-1", "deepali.core.flow", "normalize_flow", "size_ = size.sub(1) if align_corners else size", "size_ = size if align_corners else size.sub(1)", "T10x.normalize"),
         ("denormalize factor", "deepali.core.flow", "denormalize_flow", "size_ = size.sub(1) if align_corners else size", "size_ = size", "T10x.normalize"),
         ("transform_vectors cube scale", G, "Grid.transform_vectors", "scales = self.size_tensor() / 2", "scales = (self.size_tensor() - 1) / 2", "T10x."),
+        ("transform: internal float size", G, "Grid.transform", "half_size = 0.5 * self.size_tensor()", "half_size = 0.5 * self._size", "fractional-size"),
+        ("flow sample: GRID vectors not re-expressed", D, "FlowFields.sample", "if axes != Axes.WORLD:", "if axes in (Axes.CUBE, Axes.CUBE_CORNERS):", "T10x.sample"),
     ]
     for name, mod, fn, old, new, expect in specs:
         ov = source_sub(prog, mod, fn, old, new)
